@@ -27,7 +27,8 @@ func TestMain(m *testing.M) {
 		"x operation B in {Close, cancel the subscription context, two concurrent Closes, Publish, Subscribe} x state of the subscription's consumer {reading, not reading, holding an unsettled message, nacking}; "+
 		"(b) random concurrent programs of the C04 generator behind 0..2 decorators with a Close arriving after a generated number of Publish calls. "+
 		"Oracle: every call returns within the bound, no panic, after Close every output channel is closed and Publish/Subscribe return an error, no goroutine with gochannel / decorator frames remains, a cancelled subscription's channel closes and the other subscription still receives a probe; race detector on. "+
-		"Non-trivial: A was actually parked at its point when B was invoked (table) / Close landed while publishes were still outstanding (random).")
+		"Non-trivial: A was actually parked at its point when B was invoked (table) / Close landed while publishes were still outstanding (random)."+
+		" Consumer kinds of the table: reading, notreading, holding, nacking, nackonce (nacks its first message and never reads the re-delivery).")
 	lib.Extra("assumptions", []string{
 		"Close means Close() on the outermost decorator; in-flight messages at the moment of Close/cancel may be delivered or dropped",
 		"a hook point that is not reached within 50 ms (e.g. the send loop of a subscription that holds an unsettled message) makes the case run unforced; it is counted, never reported",
